@@ -17,8 +17,10 @@ theorem tail1_cons (a : UInt8) (r : Bytes) : tail1 (a :: r) = pure r := rfl
 theorem tk_eq {it : Item} {t : Tk} (h1 : it.typ = t.typ) (h2 : it.val = t.val) : it.tk = t := by
   cases t; cases it; simp_all [Item.tk]
 
-/-- closing brackets, the comma and the end of input may follow any expression -/
-def isTerm (t : ItemType) : Prop := t = .tRightParen ∨ t = .tRightBracket ∨ t = .tComma ∨ t = .tEOF
+/-- closing brackets, the comma and the end of input may follow any expression — the end of input
+    being `tEOF` in a file and the Error item "unclosed tag" of `lexInsideTag` in `parse.Expr`
+    (expression mode: the lexer starts inside a "tag" that never closes) -/
+def isTerm (t : ItemType) : Prop := t = .tRightParen ∨ t = .tRightBracket ∨ t = .tComma ∨ t = .tEOF ∨ t = .tError
 
 section
 variable (pf : Bytes → Option UInt64) (T : TableOK)
@@ -26,14 +28,14 @@ include T
 
 theorem okAfter_term {t : ItemType} (ht : isTerm t) (e : Expr) : okAfter e t := by
   have hb : isBinaryOp t = false := by
-    rw [isBinaryOp_eq T]; rcases ht with rfl | rfl | rfl | rfl <;> rfl
-  refine ⟨by rcases ht with rfl | rfl | rfl | rfl <;> simp [noAccess], ?_⟩
-  cases e <;> simp [edgeOk, hb] <;> (rcases ht with rfl | rfl | rfl | rfl <;> simp)
+    rw [isBinaryOp_eq T]; rcases ht with rfl | rfl | rfl | rfl | rfl <;> rfl
+  refine ⟨by rcases ht with rfl | rfl | rfl | rfl | rfl <;> simp [noAccess], ?_⟩
+  cases e <;> simp [edgeOk, hb] <;> (rcases ht with rfl | rfl | rfl | rfl | rfl <;> simp)
 
 theorem stops_term {t : ItemType} (ht : isTerm t) (p : Nat) : Stops p t := by
   have hb : isBinaryOp t = false := by
-    rw [isBinaryOp_eq T]; rcases ht with rfl | rfl | rfl | rfl <;> rfl
-  exact ⟨Or.inl hb, fun _ => by rcases ht with rfl | rfl | rfl | rfl <;> simp⟩
+    rw [isBinaryOp_eq T]; rcases ht with rfl | rfl | rfl | rfl | rfl <;> rfl
+  exact ⟨Or.inl hb, fun _ => by rcases ht with rfl | rfl | rfl | rfl | rfl <;> simp⟩
 
 /-- an expression slot at level 0 in front of a terminator: the direct form of `AStmt` -/
 theorem slot0 {e : Expr} (hA : AStmt pf e) {te : List Tk} {h : Tk} {rest : List Tk} {F : Nat} {st : PState}
